@@ -8,6 +8,7 @@ CONSTANTS
   GCOn = FALSE
   MTB = 0
   GCP = 1
+  JumpOn = FALSE
   Dev = {}
   Depth = 60
 INVARIANT Emit
